@@ -291,7 +291,11 @@ impl Run {
       for m in &g.machinery_errors {
         eprintln!("MACHINERY: {}", m);
       }
-      std::process::exit(2);
+      // a violation that was shown stays a verdict when another family of the same check could not run; without one, a
+      // machinery failure is never a verdict
+      if new_violations.is_empty() {
+        std::process::exit(2);
+      }
     }
     std::process::exit(if new_violations.is_empty() { 0 } else { 1 });
   }
